@@ -6,6 +6,11 @@ one Gauss-Newton step per transition, the returned statistics - one behaviour pe
 state: affine => Gaussian conditional mean after one step, fx = 0, loop stops with iters = 1; x - m in
 range(L L^T J^T) at every iterate; reported statistics are the last state; budget respected; a returned point is
 feasible to the tolerance or the budget is exhausted and reported so.
+Guard-band family (two phases): TLC first runs the exact iteration of quadratic instances under a tiny tolerance and
+exports |fx_k|^2, |dx_k|^2; from these an integer T (tol = 1/T) is chosen per iterate so that |fx_k|^2 lies strictly
+inside (K/T^2, D/T^2), or |dx_k|^2 just above / just below D/T^2 with the constraint clause undecided, every guard of
+the prefix >= 1e-3 away from its threshold; the resulting instances are model-checked and replayed like all others, so
+a wrong count or a wrong quantity in any clause of the loop guard changes an observed guard value.
 bind: every behaviour is replayed into the real routine with a recording Python loop injected through its
 `while_loop=` parameter (iterate by iterate, guard by guard), into the same routine with the library's own loop
 under jit, and into taylor_point_maximum_a_posteriori used as `taylor_point=` of
@@ -47,6 +52,44 @@ def _instances(tier, seed):
     return insts
 
 
+def _band_family(tier, seed, rep):
+    """phase 1 (exact iteration under tol = 2^-20, TLC) -> phase 2 (tolerances placed around the exact norms)"""
+    rng = random.Random(7100 + seed)
+    quick = tier == "quick"
+    want = {"fx_band": 70 if quick else 700, "dx_above": 30 if quick else 300, "dx_below": 30 if quick else 300}
+    floor = {"fx_band": 40, "dx_above": 10, "dx_below": 6}  # keep sampling (a few rounds) until every band kind is populated
+    got = {k: [] for k in want}
+
+    def regular():
+        if rng.random() < 0.5:
+            return gn.make_instance(rng, kind="quad", D=2, K=1, near=True, maxiter=4, T=gn.T_PHASE1, lmode=rng.choice(["identity", "diag", "tril", "sing_zero_row", "sing_col"]))
+        return gn.make_instance(rng, kind="quad", near=rng.random() < 0.7, maxiter=4, T=gn.T_PHASE1)
+
+    def strong():
+        # residual and increment of comparable size after a step (needed for the increment bands, tol = 1/2 .. 1/9)
+        return gn.make_instance(rng, kind="quad", strong=True, near=True, mrange=1, maxiter=4, T=gn.T_PHASE1, D=rng.choice([2, 2, 3, 4]))
+
+    for rnd in range(4 if quick else 12):
+        if rnd == 0:
+            bases = [regular() for _ in range(200 if quick else 1500)] + [strong() for _ in range(300 if quick else 1500)]
+        else:
+            bases = [strong() for _ in range(300 if quick else 1500)]
+        res, states, gen, fails = gn.run_spec([gn.tla_instance(b) for b in bases], batch=50)
+        rep.states += states
+        rep.transitions += gen
+        for f in fails:
+            j = f["instance"]
+            rep.violation(f"spec:GaussNewton:{f['violated']}", f"GaussNewton.tla invariant {f['violated']} violated by the specified iteration itself (guard-band phase 1)", {"instance": gn.to_json(bases[j]) if j is not None else None, "tlc_tail": f["tlc_tail"]})
+        for j, base in enumerate(bases):
+            if j in res and 0 in res[j]["states"]:
+                for b in gn.band_instances(rng, base, res[j]):
+                    if len(got[b["band"]]) < want[b["band"]]:
+                        got[b["band"]].append(b)
+        if all(len(got[k]) >= (floor[k] if quick else want[k]) for k in want):
+            break
+    return [b for k in gn.BAND_KINDS for b in got[k]]
+
+
 def _record(rep, inst, j, bad):
     for key, detail in bad:
         rep.violation(
@@ -63,7 +106,7 @@ def run(tier: str, seed: int) -> int:
         "into the real routine iterate by iterate; distinct non-trivial = instances on which at least one Gauss-Newton step "
         "(two states) was compared"
     )
-    insts = _instances(tier, seed)
+    insts = _instances(tier, seed) + _band_family(tier, seed, rep)
     res, states, gen, fails = gn.run_spec([gn.tla_instance(i) for i in insts], batch=25 if tier == "quick" else 60)
     rep.states += states
     rep.transitions += gen
@@ -77,6 +120,7 @@ def run(tier: str, seed: int) -> int:
     stat = collections.Counter()
     depth = collections.Counter()
     worst = 0.0
+    band_ok = 0
     for j, inst in enumerate(insts):
         sp = res.get(j)
         if sp is None or 0 not in sp["states"]:
@@ -91,6 +135,11 @@ def run(tier: str, seed: int) -> int:
         worst = max(worst, info["max_relerr"])
         for k in ("returned", "borderline", "map", "filter_update", "range_checked"):
             stat[k] += int(info[k])
+        if "band" in inst:
+            stat[f"band_generated:{inst['band']}"] += 1
+            if inst["band_k"] in info["guards_compared"]:  # the banded guard evaluated in 32 bits and was compared
+                stat[f"band_evaluated:{inst['band']}"] += 1
+                band_ok += 1
         ret = sp["ret"]
         if ret is None:
             stat["behaviour_truncated(32bit_or_rank_deficient_solve)"] += 1
@@ -102,6 +151,9 @@ def run(tier: str, seed: int) -> int:
                 stat["returned_with_singular_factor"] += 1
         _record(rep, inst, j, bad)
     rep.extra["instances"] = len(insts)
+    rep.extra["guard_band_instances"] = band_ok
+    if band_ok < 40:
+        raise RuntimeError(f"guard-band family too small: {band_ok} instances evaluated (need >= 40)")
     rep.extra["gauss_newton_steps_compared_histogram"] = {str(k): v for k, v in sorted(depth.items())}
     rep.extra["counts"] = dict(sorted(stat.items()))
     rep.extra["largest_relative_deviation_float64_vs_exact"] = worst
@@ -110,7 +162,8 @@ def run(tier: str, seed: int) -> int:
         "32-bit exact rationals: a behaviour is cut where a value leaves the range (denominators square at every step), so most exact behaviours have 1..2 steps, few have 3..4; budgets up to 50 and D up to 10 are not covered",
         "float64 against exact rationals at 1e-9 relative; a guard evaluation whose exact squared norm is within 1e-6 (relative) of the threshold is not judged",
         "optimality at 0 iterations is claimed only for x0 = mean (both call sites of the library); a feasible start x0 != mean is returned unchanged by the routine and by the specification",
-        "constraints g(x) = A x - b + x^T Q x with integer A, small Q (entries 0, +-1, +-1/4, +-1/16); tolerances 2^-10, 2^-20; budgets 1..4",
+        "constraints g(x) = A x - b + x^T Q x with integer A, small Q (entries 0, +-1, +-1/4, +-1/16); tolerances 2^-10, 2^-20 and, in the guard-band family, 1/T for integers T placed around the exact norms of the iterates; budgets 1..4",
+        "the third exit of the guard (increment below tolerance, residual above) is required not to occur for tol <= 2^-10 only; under the coarse tolerances of the increment bands it is a truthfully reported outcome ('stalled')",
     ]
     return rep.finish()
 
